@@ -106,6 +106,8 @@ where
                         loop {
                             // Step 1: Do work.
                             if pending.is_empty() {
+                                #[cfg(getong_stateright_verif)]
+                                crate::job_market::verif::yield_point("before_pop");
                                 pending = {
                                     let jobs = job_broker.pop();
                                     if jobs.is_empty() {
@@ -153,6 +155,8 @@ where
                                 }
                             }
 
+                            #[cfg(getong_stateright_verif)]
+                            crate::job_market::verif::yield_point("after_block");
                             // Step 2: Share work.
                             if pending.len() > 1 && thread_count > 1 {
                                 job_broker.split_and_push(&mut pending);
